@@ -70,7 +70,7 @@ let parse_input (input : string) : coq_Z * bool * op list =
         if String.length w > 3 && String.sub w 0 3 = "mt=" then mt := int_of_string (String.sub w 3 (String.length w - 3))
         else if w = "mode=p" then prod := true
         else if w = "mode=s" then prod := false
-        else if String.length w = 4 && String.sub w 0 3 = "up=" && w.[3] >= '0' && w.[3] <= '5' then ()  (* url profile: which strings the ids stand for - harness only *)
+        else if String.length w = 4 && String.sub w 0 3 = "up=" && w.[3] >= '0' && w.[3] <= '6' then ()  (* url profile: which strings the ids stand for - harness only *)
         else raise (Malformed "head")) (words head);
     if !mt < 1 then raise (Malformed "head");
     (z_of_int !mt, !prod, Stdlib.List.map parse_op ops)
